@@ -39,8 +39,9 @@ claim(
 )
 claim(
     "C08",
-    "proof",
-    "Partial (mechanisms 1-3 of 5). Proved for all inputs of the functions under contract: (1) the conversion table, rewritten mechanically on every run from the "
+    "other",
+    "Partial (mechanisms 1-3 of 5 and two building blocks of 4). Level 'other' because the two unit-algebra obligations (Unit::new normal form, are_any_convertible) are bounded stand-ins on concrete unit vectors; "
+    "everything else is complete - proved for all inputs of the functions under contract: (1) the conversion table, rewritten mechanically on every run from the "
     "current initializer into a match and validated natively bit-for-bit against the real Lazy<HashMap>, has an entry exactly for pairs in the same convertible "
     "class of the statement, is 1 on the diagonal, equals the CSS ratios of the statement within 4 ulp, and is inverse-consistent and transitive within 4 ulp; "
     "(2) the real Unit::comparable/kind agree with the statement's classes on all 37x37 simple units (34 known, None, Unknown with symbolic key) and 4 complex units, "
